@@ -3,6 +3,7 @@ open TFVerif.C03
 #print axioms gen_eq_model_statTypes
 #print axioms gen_eq_model_stypes
 #print axioms gen_eq_model_statsFor
+#print axioms gen_eq_model_embGroup
 #print axioms gen_eq_model_defaults
 #print axioms stats_over_usable_values
 #print axioms mean_def
@@ -19,5 +20,6 @@ open TFVerif.C03
 #print axioms median_time_is_upper_median
 #print axioms year_range_def
 #print axioms emb_dim_def
+#print axioms emb_dim_after_materialize
 #print axioms defaults_when_empty
 #print axioms binary_target_sorted
